@@ -418,7 +418,7 @@ Definition update_step (c : ccfg) (kc : child_cfg) (parent : json)
            (observed : list (string * json)) (failed : bool) (p : string * json) : prog bool :=
   let d := snd p in
   let ns := eff_ns (ch_namespaced kc) (get_ns d) in
-  if ssa c then f <~ ssa_child c kc (olookup (fst p) observed) d ;; Ret (failed || f) else
+  if ssa c then f <~ ssa_child c kc parent (olookup (fst p) observed) d ;; Ret (failed || f) else
   match child_decision c kc parent (olookup (fst p) observed) d with
   | ActNone => Ret failed
   | ActError | ActPanic => Ret true
